@@ -25,9 +25,21 @@ fn run_repl() {
             return;
         }
 
-        // TODO: Error handling here
-        let ast = parse(&buffer).unwrap();
-        let code = compiler.compile_ast(&ast).unwrap();
+        // a line that does not parse or compile is reported like one that fails while running
+        let ast = match parse(&buffer) {
+            Ok(ast) => ast,
+            Err(e) => {
+                eprintln!("{e:?}");
+                continue;
+            }
+        };
+        let code = match compiler.compile_ast(&ast) {
+            Ok(code) => code,
+            Err(e) => {
+                eprintln!("{e:?}");
+                continue;
+            }
+        };
 
         match vm.run(code) {
             Ok(obj) => {
